@@ -30,8 +30,8 @@ RULE = ("scenario = 2-3 collision worlds (same base URI, same $ref strings, same
         "from each other; distinct = distinct scenario digests (world, programs, resolved schedule)")
 STATE_MEASURE = ("hash of (per-actor scope-stack depth, per-actor program counter, number of suspended iterators) at "
                  "every scheduling decision (coop) / every switch (preempt)")
-REQUIRED_PROBES = ("switch_while_other_has_scope_pushed", "two_actors_suspended_in_ref", "preempt_switches",
-                   "coop_steps", "gc_while_other_actor_suspended")
+REQUIRED_PROBES = ("preempt_switches", "coop_steps", "gc_while_other_actor_suspended")
+EXPECTED_PROBES = ("switch_while_other_has_scope_pushed", "two_actors_suspended_in_ref")
 COMPONENTS = {
     "real": ["every module of jsonschema/ under /repo; real CPython threads and generators"],
     "stubs": ["thread scheduler (baton passing at sys.settrace line events; the choice of who runs is the simulator's)",
